@@ -48,6 +48,10 @@ func replPool() []string {
 		model.KwPrint + " " + model.BiInput + ";", // a built-in printed (no call)
 		"# @ # @ # @ # @ # @ # @ # @",             // a line with many lexical errors
 		"1 +; 2 +; ) ) ) ; ; ;",                   // a line with a syntax error followed by more garbage
+		// a runtime error at the bottom of a thousand nested calls, and deep recursions that succeed
+		model.KwFun + " df(n) { " + model.KwIf + " (n > 0) { " + model.KwReturn + " df(n - 1); } " + model.KwReturn + " 1 / 0; } df(1000);",
+		model.KwFun + " dg(n) { " + model.KwIf + " (n > 0) { " + model.KwReturn + " dg(n - 1) + 1; } " + model.KwReturn + " 0; } dg(999);",
+		model.KwFun + " dh(n) { " + model.KwIf + " (n > 0) { " + model.KwReturn + " dh(n - 1) + 1; } " + model.KwReturn + " 0; } dh(60);",
 	}
 }
 
